@@ -816,11 +816,68 @@ Definition sworld0 (rs : list preq) (paths : list N) (workers qcap cap : nat) : 
   mk_sworld (world0 rs) (mk_engine workers [] qcap 0 cap (repeat PlNone (length rs))) paths.
 
 (* ------------------------------------------------------------------ *)
-(** * 5. LazyDeadline / EffectiveError, as a function of the clock *)
+(** * 5. LazyDeadline (internal/contextutil/lazy_deadline.go) and EffectiveError
 
-(* EffectiveError on a never-cancelled request context: nil strictly before the deadline *)
-Definition effective_error (now_ deadline : Z) (parent_cancelled : bool) : cerr :=
-  if parent_cancelled then CCanceled else if (now_ <? deadline)%Z then CNone else CDeadline.
-(* LazyDeadline.Cancel on the fast path records Exceeded at or after the deadline *)
-Definition lazy_cancel_state (now_ deadline : Z) : N :=
-  if (now_ <? deadline)%Z then lazy_canceled else lazy_exceeded.
+   The request context: the deadline is visible at once, the timer and the parent
+   registration exist only after the first Done() (or the first Err() that finds the context
+   ended).  [lz_term] is the terminal cause once pinned; [lz_mat] says the standard-library
+   deadline context exists (from then on the runtime pins the cause the moment it happens);
+   before that the cause is decided when somebody looks, parent cancellation first. *)
+Record lz := mk_lz { lz_term : option cerr; lz_mat : bool; lz_parent : bool; lz_now : Z; lz_deadline : Z }.
+Inductive lzop := LErr | LDone | LCancel | LParentCancel | LSleep (d : Z) | LEffective.
+
+Definition lz_cause (l : lz) : cerr :=
+  if lz_parent l then CCanceled else if (lz_now l <? lz_deadline l)%Z then CNone else CDeadline.
+Definition lz_pin (l : lz) : lz :=
+  mk_lz (match lz_cause l with CNone => None | c => Some c end) true (lz_parent l) (lz_now l) (lz_deadline l).
+(* materialize(): nothing to do once a local terminal state was recorded *)
+Definition lz_materialize (l : lz) : lz :=
+  if lz_mat l then l else match lz_term l with Some _ => l | None => lz_pin l end.
+Definition cerr_code (c : cerr) : N := match c with CNone => 0 | CDeadline => 1 | CCanceled => 2 end%N.
+Definition term_code (l : lz) : cerr := match lz_term l with Some c => c | None => CNone end.
+
+Definition lz_err (l : lz) : lz * cerr :=
+  if lz_mat l then (l, term_code l)
+  else match lz_term l with
+       | Some c => (l, c)
+       | None => match lz_cause l with
+                 | CNone => (l, CNone)
+                 | _ => let l' := lz_pin l in (l', term_code l')
+                 end
+       end.
+
+Definition lz_step (l : lz) (o : lzop) : lz * N :=
+  match o with
+  | LErr => let '(l', c) := lz_err l in (l', cerr_code c)
+  | LDone => let l' := lz_materialize l in (l', match lz_term l' with Some _ => 1 | None => 0 end%N)
+  | LCancel =>
+      if lz_mat l then (mk_lz (match lz_term l with None => Some CCanceled | t => t end) true (lz_parent l) (lz_now l) (lz_deadline l), 0%N)
+      else match lz_term l with
+           | Some _ => (l, 0%N)
+           | None =>
+               if lz_parent l then (lz_pin l, 0%N)
+               else (mk_lz (Some (if (lz_now l <? lz_deadline l)%Z then CCanceled else CDeadline)) false false (lz_now l) (lz_deadline l), 0%N)
+           end
+  | LParentCancel =>
+      (mk_lz (if lz_mat l then match lz_term l with None => Some CCanceled | t => t end else lz_term l)
+             (lz_mat l) true (lz_now l) (lz_deadline l), 0%N)
+  | LSleep d =>
+      let n := (lz_now l + d)%Z in
+      (mk_lz (if lz_mat l then match lz_term l with
+                               | None => if (n <? lz_deadline l)%Z then None else Some CDeadline
+                               | t => t end
+              else lz_term l)
+             (lz_mat l) (lz_parent l) n (lz_deadline l), 0%N)
+  | LEffective =>
+      let '(l', c) := lz_err l in
+      (l', cerr_code (match c with
+                      | CNone => if (lz_now l' <? lz_deadline l')%Z then CNone else CDeadline
+                      | x => x end))
+  end.
+
+Fixpoint lz_run (l : lz) (ops : list lzop) : lz * list N :=
+  match ops with
+  | [] => (l, [])
+  | o :: r => let '(l1, x) := lz_step l o in let '(l2, xs) := lz_run l1 r in (l2, x :: xs)
+  end.
+Definition lz_init (deadline : Z) : lz := mk_lz None false false 0 deadline.
